@@ -71,6 +71,14 @@ def _machine_cls():
         salt = None
         nop = 0
 
+        def run_op(self, op, env):
+            if op.name == "test.op" and "c14.sink" in op.attributes:
+                # poison-tolerant observer: a poison operand is logged as such and acts as a wildcard on the source side
+                self.log.append(("sink", tuple("poison" if env[o] is refsem.POISON else refsem.observe(env[o])
+                                               for o in op.operands)))
+                return None
+            return super().run_op(op, env)
+
         def _opaque(self, t, tag, k):
             if self.salt is None:
                 return super()._opaque(t, tag, k)
@@ -94,8 +102,21 @@ def execute(module, kind, inp, limit):
         _M14 = _machine_cls()
     try:
         if kind == "func":
-            out, log = refsem.run(module, "main", [tuple(a) if isinstance(a, list) else a for a in inp], step_limit=limit)
-            return ("ok", out, log)
+            m = _M14(module, limit)  # same protocol as refsem.run
+            real, margs = [], []
+            for k, a in enumerate(inp):
+                if isinstance(a, (tuple, list)) and a and a[0] == "memref":
+                    h = ("arg", k)
+                    m.mem[h] = list(a[2])
+                    real.append((h, tuple(a[1])))
+                    margs.append(h)
+                else:
+                    real.append(a)
+            vals = m.call("main", real)
+            out = [refsem.observe(v) for v in vals]
+            for h in margs:
+                out.append(("mem", tuple("poison" if x is refsem.POISON else refsem.observe(x) for x in m.mem[h])))
+            return ("ok", out, m.log)
         m = _M14(module, limit)
         m.salt = inp
         env = {}
@@ -112,6 +133,28 @@ def execute(module, kind, inp, limit):
         return ("unsup", str(e)[:60])
     except refsem.StepLimit:
         return ("steps", "")
+    except KeyError as e:
+        from xdsl.ir import SSAValue
+        if e.args and isinstance(e.args[0], SSAValue):
+            # an operand that no executed operation defined: use before definition / use of a value of another region
+            return ("nodef", str(e.args[0])[:120])
+        raise
+
+
+def log_refines(src, dst):
+    """dst effect log equals src, except that a value the source logged as poison at a sink may be anything"""
+    if src == dst:
+        return True
+    if len(src) != len(dst):
+        return False
+    for a, b in zip(src, dst):
+        if a == b:
+            continue
+        if a[0] == "sink" and b[0] == "sink" and len(a[1]) == len(b[1]) and \
+                all(x == "poison" or x == y for x, y in zip(a[1], b[1])):
+            continue
+        return False
+    return True
 
 
 # ------------------------------------------------------------------------------------------- fold audit
@@ -431,6 +474,36 @@ def classify_raise(pass_name, exc):
     return generic, detail
 
 
+# ------------------------------------------------------------------------------------------- CPU-time watchdog
+PASS_CPU_BUDGET = 20.0  # CPU-seconds of this process for ONE pass application (measured normal cost: 1-20 ms)
+
+
+class PassCpuBudget(BaseException):
+    """raised by the ITIMER_VIRTUAL handler; BaseException so that no `except Exception` in the pass swallows it"""
+
+
+class cpu_budget:
+    """Decides 'the pass does not terminate' on CPU time of the worker, never on wall-clock time."""
+
+    def __init__(self, seconds):
+        self.seconds = seconds
+
+    def __enter__(self):
+        import signal
+
+        def _expired(signum, frame):
+            raise PassCpuBudget()
+
+        self.old = signal.signal(signal.SIGVTALRM, _expired)
+        signal.setitimer(signal.ITIMER_VIRTUAL, self.seconds)
+
+    def __exit__(self, *a):
+        import signal
+        signal.setitimer(signal.ITIMER_VIRTUAL, 0)
+        signal.signal(signal.SIGVTALRM, self.old)
+        return False
+
+
 # ------------------------------------------------------------------------------------------- one case
 class Ctx:
     def __init__(self):
@@ -495,6 +568,8 @@ def run_case(cx: Ctx, text, kind, argtypes, inputs, passes, tag=""):
     base = []
     for inp in inputs:
         r = execute(m, kind, inp, SRC_STEPS)
+        if r[0] == "nodef":
+            raise RuntimeError(f"generated program uses an undefined value {r[1]}\n{text}")
         base.append(r)
         cx.count("source_runs")
         if r[0] != "ok":
@@ -524,7 +599,14 @@ def run_case(cx: Ctx, text, kind, argtypes, inputs, passes, tag=""):
         journal(f"pass={pn}\n{text}")
         exc = None
         try:
-            _get_pass(pn).apply(c2, m2)
+            with cpu_budget(PASS_CPU_BUDGET):
+                _get_pass(pn).apply(c2, m2)
+        except PassCpuBudget:
+            Audit.sink = Audit.merges = None
+            cx.count(f"pass_cpu_budget_exceeded:{pn}")
+            cx.viol(f"hang:{pn}:cpu-budget-exceeded", f"{pn} used more than {PASS_CPU_BUDGET} CPU-seconds on a "
+                    f"{nops}-op program (normal: milliseconds)", wit(pn))
+            continue
         except Exception as e:  # noqa: BLE001 - MemoryError / RecursionError are Exceptions as well
             exc = e
         audit, Audit.sink = Audit.sink, None
@@ -592,12 +674,18 @@ def run_case(cx: Ctx, text, kind, argtypes, inputs, passes, tag=""):
             cx.res["evaluations"] += 1
             cx.count(f"comparisons:{pn}")
             compared += 1
-            if r[0] == "unsup":
+            if r[0] == "unsup" and not any(k in r[1] for k in ("bitcast of NaN", "double rounding")):
+                # an op / type outside the reference's vocabulary appeared: limit of the harness, never "held"
                 raise RuntimeError(f"reference does not support output of {pn}: {r[1]}\n{m2}")
-            if r[0] == "ok" and r[1] == b[1] and r[2] == b[2]:
+            if r[0] == "ok" and r[1] == b[1] and log_refines(b[2], r[2]):
                 cx.count(f"agree:{pn}")
                 continue
-            if r[0] == "undef":
+            if r[0] == "unsup":
+                # value-dependent limit of the reference reached only by the target (the source computed other values)
+                what, why = "result-differs", f"target computes a value the source does not ({r[1]})"
+            elif r[0] == "nodef":
+                what, why = "use-of-undefined-value", f"target reads {r[1]}, which no executed operation defined"
+            elif r[0] == "undef":
                 what, why = "introduced-ub", f"target undefined ({r[1]}) where the source is defined"
             elif r[0] == "steps":
                 what, why = "introduced-nontermination", "target exceeds the step limit"
@@ -653,7 +741,7 @@ def _verify_class(module):
 # ------------------------------------------------------------------------------------------- plan / work / finish
 def plan(tier, seed):
     import os
-    shards, per = (16, 96) if tier == "quick" else (64, 1000)  # worker start-up (imports) costs ~4 CPU-s
+    shards, per = (16, 96) if tier == "quick" else (64, 500)  # worker start-up (imports) costs ~4 CPU-s
     # self-tests only (mutant runs in a scratch worktree): XV_C14_SCALE=0.5 halves the workload of every shard
     per = max(1, int(per * float(os.environ.get("XV_C14_SCALE", "1"))))
     return [{"kind": "gen", "seed": seed * 100003 + i, "n": per} for i in range(shards)]
@@ -701,8 +789,10 @@ def work(job):
 
 
 def on_lost(info):
+    """A worker killed by a signal while a pass was running (native crash, OOM) is an observation; a wall-clock
+    timeout is not (non-termination is decided on CPU time inside the worker): it stays inconclusive."""
     j = info.get("journal")
-    if not j or info.get("status") not in ("timeout", "died"):
+    if not j or info.get("status") != "died" or (info.get("rc") or 0) >= 0:
         return None
     if "Traceback" in (info.get("stderr") or "") and "RuntimeError" in (info.get("stderr") or ""):
         return None  # harness failure: inconclusive
@@ -716,8 +806,8 @@ def on_lost(info):
 
 MIN_CHANGED = {"quick": {"canonicalize": 600, "constant-fold-interp": 400, "cse": 500, "test-constant-folding": 80,
                          "test-specialised-constant-folding": 25},
-               "thorough": {"canonicalize": 20000, "constant-fold-interp": 15000, "cse": 18000,
-                            "test-constant-folding": 3000, "test-specialised-constant-folding": 900}}
+               "thorough": {"canonicalize": 10000, "constant-fold-interp": 7500, "cse": 9000,
+                            "test-constant-folding": 1500, "test-specialised-constant-folding": 450}}
 
 
 def finish(agg, tier):
@@ -740,7 +830,7 @@ def finish(agg, tier):
         if nt < need:
             inc.append(f"{pn}: only {nt} programs were changed by the pass and compared (< {need}); trigger rate "
                        f"{rates[pn]['trigger_rate']}")
-    if c.get("folds_compared:canonicalize", 0) < (800 if tier == "quick" else 30000):
+    if c.get("folds_compared:canonicalize", 0) < (800 if tier == "quick" else 15000):
         inc.append("fold audit saw too few canonicalize folds")
     runs = c.get("source_runs", 0)
     excl = sum(v for k, v in c.items() if k.startswith("source_excluded_"))
